@@ -5,5 +5,7 @@ func init() {
 		{Run: "TestRenewalSchedule", Quick: 16, Thorough: 160, QShards: 8, TShards: 16},
 		{Run: "TestRenewalWindows", Quick: 160, Thorough: 4000, QShards: 16, TShards: 16},
 		{Run: "TestRequestsAcrossAutomaticRenewals", Quick: 16, Thorough: 480, QShards: 16, TShards: 16},
+		// opcua.Client against server.Server across 3-4 automatic renewals (10-20 s per case)
+		{Run: "TestClientAgainstServer", Quick: 8, Thorough: 128, QShards: 8, TShards: 16},
 	}}
 }
